@@ -643,6 +643,13 @@ def gen_cancel(quick, seed):
     out.append(ps("cancel:use-inf", 'probe(1)\nuse("b.p")\nprobe(2)', extra={"b.p": "for ;; {\n}"}, fuel=120, tag="infinite loop in a callee"))
     out.append(ps("cancel:use-deep", 'use("b.p")\nprobe(2)', extra={"b.p": 'probe(1)\nuse("c.p")\nprobe(3)', "c.p": "for i = 0; i < 2; i = i + 1 {\nprobe(i)\n}"},
                   tag="cancellation two levels deep"))
+    # use() written inside an expression statement, an argument, a condition: the callee's polls are the implementation's own (the
+    # model runs such a callee in one step), and at each of them the run must stop with exactly the effects performed so far
+    callee = {"b.p": "for v in [1, 2] {\nprobe(v)\n}\nadd_key(kb, 1)\nprobe(8)"}
+    for i, t in enumerate(['probe(1)\n(use("b.p"))\nprobe(2)\nadd_key(m2, 1)', 'probe(1)\nq = [use("b.p")]\nprobe(2)', 'probe(1)\nadd_key(ku, use("b.p"))\nprobe(2)',
+                           'probe(1)\nif use("b.p") {\nprobe(3)\n} else {\nprobe(4)\n}\nprobe(2)', 'for i = 0; i < 2; i = i + 1 {\nprobe(i, use("b.p"))\nprobe(5)\n}\nprobe(2)',
+                           'probe(1)\nq = use("b.p")\nprobe(2)\nfor v in [use("b.p")] {\nprobe(6)\n}\nprobe(3)']):
+        out.append(ps("cancel:use-expr:%d" % i, t, extra=callee, tag="cancellation inside a callee reached from within an expression"))
     for k in range(40 if quick else 400):
         body = rand_block(rng, 0, 3, ["x", "y"], in_loop=False)
         out.append(ps("cancel:r%d" % k, body, pt=STD_PT, tag="random loop-bearing program, every cancellation point"))
@@ -717,6 +724,21 @@ def gen_hostile(quick, seed):
     for u in unjson:
         for r in reads:
             add(u + "\n" + r, "values without JSON text stored into the point, then read")
+    # values that contain themselves (a[0] = a) handed to everything that formats, converts, compares, measures, iterates or stores
+    # values: the model leaves the outcome open (unspec-*), the host must survive
+    cyc_pre = ['a = [1]\na[0] = a', 'm = {"x": 1}\nm["x"] = m', 'a = [1, [2]]\na[1][0] = a', 'm = {"k": [0]}\nm["k"][0] = m\na = [m]']
+    cyc_sinks = ['printf("%v", V)', 'printf("%s %d", V, V)', 'strfmt(k, "%v", V)', 'strfmt(k, "<%s>", [V])', 'cast(V, "str")', 'cast(V, "int")', 'cast(V, "bool")',
+                 'datetime(V, "s", "RFC3339")', 'datetime(V, "ms", "ANSIC")', 'add_key(k, V)', 'set_tag(t, V)', 'x = V == V', 'x = [V] == [V]', 'x = V in [V]',
+                 'x = V != 1', 'trim(V)', 'uppercase(V)', 'url_decode(V)', 'replace(V, "x", "y")', 'sql_cover(V)', 'x = grok(V, "%{WORD:w}")', 'x = len(V)',
+                 'for e in V {\nprobe(1)\n}', 'x = V + V', 'x = V[0][0][0][0]', 'set_measurement(V)', 'set_measurement(V, true)', 'rename(k, V)', 'xml(V, "/a", o)',
+                 'default_time(V)', 'x = load_json(V)', 'if V {\nprobe(1)\n}', 'x = !V', 'x = V && V', 'x = V[0:1]', 'x = V[::-1]', 'probe(len(V))', 'drop_key(V)',
+                 'y = V\nadd_key(k)\nk = V\nadd_key(k)', 'x = {"q": V}\nprintf("%v", x)']
+    ci = 0
+    for pre in cyc_pre:
+        var = "a" if pre.startswith("a") or "\na = " in pre else "m"
+        for sink in cyc_sinks:
+            ci += 1
+            out.append(ps("host:cyc:%d" % ci, pre + "\n" + sink.replace("V", var) + "\nprobe(9)", pt=STD_PT, tag="a value that contains itself, into every sink"))
     return out
 
 
@@ -883,7 +905,9 @@ BVALS = [("int", "7", 7), ("float", "1.5", 1.5), ("bool", "true", True), ("strpa
          ("strre", '"caat"', "caat"), ("strurl", '"a%20b+c"', "a%20b+c"), ("strbadurl", '"%zz"', "%zz"), ("strab", '"ab"', "ab"),
          ("strjson", '"[1,\\"a\\",null]"', '[1,"a",null]'), ("strbadjson", '"nul"', "nul"), ("strempty", '""', ""), ("nil", "nil", None),
          ("list", "[1, 2]", NOSTORE), ("map", '{"a": 1}', NOSTORE), ("strtrue", '"true"', "true"), ("strneg", '"-3"', "-3"), ("int0", "0", 0),
-         ("float0", "0.0", 0.0), ("strx", '"x"', "x"), ("strplus", '"q=a+b +c"', "q=a+b +c")]
+         ("float0", "0.0", 0.0), ("strx", '"x"', "x"), ("strplus", '"q=a+b +c"', "q=a+b +c"),
+         # a variable holding "no value" (what an attribute expression or a call without result yields)
+         ("voidattr", "a.b", NOSTORE), ("voidcall", "drop_key(nosuchkey)", NOSTORE)]
 SITUATIONS = ["var", "field", "tag", "var+field", "var+tag", "absent"]
 BCALLS = [
     "add_key(k)", "add_key(k, 5)", 'add_key("k", 5)', "add_key(k, q.r)\nprobe(k)\nadd_key(k, 5)", "add_key(k, nil)", "set_tag(k, q.r)", "add_key(k, q.r)\nset_tag(k)", "probe(get_key(k))", "set_tag(k)", 'set_tag(k, "v")', "set_tag(k, fi)", "set_tag(k, nosuch)",
